@@ -15,7 +15,7 @@ PREAMBLE = (b'require ["fileinto","reject","envelope","body","vacation","vacatio
 
 VOCAB = [
     b";", b",", b"{", b"}", b"(", b")", b"[", b"]",
-    b'"a"', b'"%b"', b"10", b"1K", b"text:\n%x\n.\n",
+    b'"a"', b'"%b"', b'"\xff"', b"10", b"1K", b"text:\n%x\n.\n",
     b":is", b":contains", b":comparator", b'"i;octet"', b":count", b'"gt"', b":regex", b":copy", b":create",
     b":flags", b":over", b":localpart", b":raw", b":content", b":zone", b":originalzone", b":subject", b":days", b":seconds", b":mime", b":foo",
     b"if", b"elsif", b"else", b"require", b"stop", b"keep", b"fileinto", b"redirect", b"reject", b"addflag",
